@@ -220,13 +220,21 @@ int main(int argc, char **argv)
 	gfl(&F);
 	S = NULL;
 	for (size_t i = 0; i < sizeof SC / sizeof SC[0]; i++) if (!strcmp(SC[i].name, argv[2])) S = &SC[i];
-	bool stress = !strcmp(argv[2], "stress");
+	bool stressos = !strcmp(argv[2], "stressos");      // same, but with CKF_OS_LOCKING_OK after an unlocked C_Initialize(NULL) / C_Finalize cycle
+	bool stress = !strcmp(argv[2], "stress") || stressos;
 	if (stress) S = &SC[0];
 	if (!S) { printf("unknown-scenario\n"); return 2; }
 	long k = atol(argv[3]);
 	pthread_t wd; pthread_create(&wd, NULL, watchdog, NULL);
 	CK_C_INITIALIZE_ARGS ia; memset(&ia, 0, sizeof ia);
 	ia.CreateMutex = cbCreate; ia.DestroyMutex = cbDestroy; ia.LockMutex = cbLock; ia.UnlockMutex = cbUnlock; ia.flags = 0;
+	if (stressos) {
+		// the application first used the library single-threaded (no locking asked for), finalised it, and now asks for OS locking
+		if (F->C_Initialize(NULL) != CKR_OK) { printf("init-failed\n"); return 2; }
+		F->C_Finalize(NULL);
+		memset(&ia, 0, sizeof ia);
+		ia.flags = CKF_OS_LOCKING_OK;
+	}
 	if (F->C_Initialize(&ia) != CKR_OK) { printf("init-failed\n"); return 2; }
 	// set-up: token, PINs, objects
 	{
